@@ -585,25 +585,10 @@ def run(cx):
     rule_dispatch(cx, "C07")
 
     # ---- C07-STRIP ---------------------------------------------------------------------------
-    hdr = header_regexes(pm)
-    if len(hdr) < 8:
-        raise AnalysisError(f"block-header regexes not recognised ({sorted(hdr)})")
-    r = cx.rule("C07-STRIP", "the text matched against a block-header regex (while/for/if/elif/else/try/except/def) is always derived from _strip_inline_comment(...), so trailing comments never hide a header (what a trailing comment does to each statement kind is decided by evaluation in C07-SPACING)", floor=6)
-    for fn_q, fn in pm.funcs.items():
-        defs = None
-        for n in walk_local(fn, include_self=False):
-            if isinstance(n, ast.Call) and isinstance(n.func, ast.Attribute) and n.func.attr in ("match", "fullmatch", "search") and isinstance(n.func.value, ast.Name) and n.func.value.id in hdr and n.args:
-                if defs is None:
-                    defs = dict(Locals(fn).defs)
-                    # closures see the enclosing function's locals too
-                    enc = pm.enclosing_func(fn)
-                    while enc is not None:
-                        for k, v in Locals(enc).defs.items():
-                            defs.setdefault(k, v)
-                        enc = pm.enclosing_func(enc)
-                ok = _derives_from_strip(n.args[0], defs)
-                r.check(ok, f"{fn_q}/{n.func.value.id}.match({norm(n.args[0])})-unstripped", (pm, n), f"`{stmt_key(n)}`: header regex is matched against text that may still carry a trailing comment", sample=f"{fn_q}: {n.func.value.id}.match({norm(n.args[0])})")
-    cx.extra["header_regexes"] = sorted(hdr)
+    # (that a trailing comment never hides a block header or changes a statement is decided by evaluation: C07-SPACING re-writes
+    # every line of four canonical scripts - headers at the top level, in the main loop and in functions - with trailing
+    # comments and demands the same IR)
+    cx.extra["header_regexes"] = sorted(header_regexes(pm))
 
     rule_extent(cx, "C07-EXTENT")
 
